@@ -136,6 +136,9 @@ func judgeCallC28(r *mon.Run, c *call, st *c28Stats) {
 				r.Violation(k, fmt.Sprintf("%s→%s: returned path is not a consistent SCION path: %v", c.Src, c.Dst, err), wit(err.Error()))
 				continue
 			}
+			if rp.NumHops > 64 {
+				r.Event("obs_more_than_64_hop_fields") // not addressable by CurrHF; the statement is silent
+			}
 			if rp.CurrINF != 0 || rp.CurrHF != 0 {
 				r.Violation("C28:meta-pointers", fmt.Sprintf("CurrINF=%d CurrHF=%d on a freshly combined path", rp.CurrINF, rp.CurrHF), wit(""))
 			}
